@@ -18,7 +18,6 @@ package conch
 import (
 	"errors"
 	"fmt"
-	"os"
 	"sort"
 	"strings"
 	"sync"
@@ -441,25 +440,6 @@ func Run(sc *Scenario, r *sched.Run) *Outcome {
 			}
 		}
 	}
-	skip := func(fs []sched.Fail) []sched.Fail { // development knob only
-		sk := os.Getenv("CONCH_SKIP")
-		if sk == "" {
-			return fs
-		}
-		var o []sched.Fail
-		for _, f := range fs {
-			drop := false
-			for _, p := range strings.Split(sk, ",") {
-				if p != "" && strings.HasPrefix(f.Key, p) {
-					drop = true
-				}
-			}
-			if !drop {
-				o = append(o, f)
-			}
-		}
-		return o
-	}
 	if r != nil {
 		r.OnEnd(func(end sched.EndKind) {
 			switch end {
@@ -475,7 +455,6 @@ func Run(sc *Scenario, r *sched.Run) *Outcome {
 				out.Fails = append(out.Fails, sched.Fail{Key: "deadlock:" + sc.Name, Msg: "threads blocked: " + end.String()})
 			}
 			judge(end.String())
-			out.Fails = skip(out.Fails)
 			for _, f := range out.Fails {
 				r.Fail(f.Key, f.Msg)
 			}
@@ -524,7 +503,6 @@ func Run(sc *Scenario, r *sched.Run) *Outcome {
 	}
 	if r == nil {
 		judge("free")
-		out.Fails = skip(out.Fails)
 	}
 	return out
 }
